@@ -107,6 +107,7 @@ class Ctx:
         def run(arg):
             s, p, n = arg
             sd = os.path.join(d, "s%d" % s)
+            shutil.rmtree(sd, ignore_errors=True)
             os.makedirs(sd)
             for f in os.listdir(d):
                 if f.endswith(".tla") or f.endswith(".cfg"):
@@ -114,10 +115,41 @@ class Ctx:
             rc, out, wall = tlc.run_tlc(sd, "PuanTrace", workers=1, env={"TRACE_FILE": p,
                                         "JAVA_TOOL_OPTIONS": "-Xss64m -Xmx3g -XX:ParallelGCThreads=2 -XX:CICompilerCount=2"}, timeout=7200)
             return s, n, rc, out
+        def run_total(arg):
+            """total verdicts: an event on which TLC cannot even evaluate the relation (the recorded data does not have
+            the shape the specification's operators expect) is unexplainable by the specification: it is rejected with
+            clause spec_eval_error and the rest of the shard is validated without it"""
+            s, p, n = arg
+            bad = []
+            for attempt in range(25):
+                s_, n_, rc, out = run((s, p, n - len(bad)))
+                shutil.rmtree(os.path.join(d, "s%d" % s), ignore_errors=True)
+                ok = "Model checking completed. No error has been found." in out
+                if ok or "The error occurred when TLC was evaluating" not in out and "Error: " not in out:
+                    return s, n - len(bad), rc, out, bad
+                import re as _re
+                ls = _re.findall(r"(?m)^l = (\d+)$", out)
+                if not ls or "evaluating" not in out:
+                    return s, n - len(bad), rc, out, bad
+                k = int(ls[-1])                      # the event at this position of the (current) shard file raised the error
+                lines = open(p).read().splitlines()
+                if k < 1 or k > len(lines):
+                    return s, n - len(bad), rc, out, bad
+                ev = json.loads(lines[k - 1])
+                i = out.find("Error:")
+                bad.append((ev["tid"], out[i:i + 300].replace("\n", " ")))
+                del lines[k - 1]
+                open(p, "w").write("\n".join(lines) + ("\n" if lines else ""))
+                if not lines:
+                    return s, 0, 0, "Model checking completed. No error has been found.\n1 states generated, 1 distinct states found, 0 states left on queue.", bad
+            return s, n - len(bad), rc, out, bad
         with ThreadPoolExecutor(max_workers=shards) as ex:
-            results = list(ex.map(run, files))
+            results = list(ex.map(run_total, files))
         self.p3_wall += time.time() - t0
-        for s, n, rc, out in results:
+        for s, n, rc, out, bad in results:
+            for tid, msg in bad:
+                self.rejects[tid] = ["spec_eval_error"]
+                self.notes.append("event %d: TLC could not evaluate the relation: %s" % (tid, msg))
             ok = "Model checking completed. No error has been found." in out
             st = tlc.parse_stats(out)
             if not ok or st["distinct"] != n + 1:
